@@ -50,7 +50,10 @@ class ConnectionHandler(Client):
 
     def message_from_client(self, message: IndiMessage):
         if self.router:
-            self.router.process_message(message, sender=self)
+            try:
+                self.router.process_message(message, sender=self)
+            except Exception:
+                logger.exception("TCP: error while processing message from client")
 
     def message_from_device(self, message: IndiMessage):
         data = message.to_string()
